@@ -69,7 +69,8 @@ def run(ctx):
     # 1. well-definedness of the declarative choice on the model
     mcs = [("core<=2", cfg("QSpec", 2, "core", inv=True), 300)]
     if ctx.thorough:
-        mcs = [("full<=1", cfg("QSpec", 1, "full", inv=True), 600), ("core<=2", cfg("QSpec", 2, "core", inv=True), 600),
+        mcs = [("tiny<=2 +1 deleted", cfg("QSpec", 2, "tiny", inv=True, gone=1), 600),
+               ("full<=1", cfg("QSpec", 1, "full", inv=True), 600), ("core<=2", cfg("QSpec", 2, "core", inv=True), 600),
                ("full<=2", cfg("QSpec", 2, "full", inv=INV_WD), 1500), ("mini<=3", cfg("QSpec", 3, "mini", inv=INV_WD), 1500)]
     for name, text, to in mcs:
         # action coverage (same two actions in every configuration) is taken on the smaller runs
@@ -77,8 +78,10 @@ def run(ctx):
         ctx.log("MC %s: %d generated, %d distinct, %.0fs" % (name, mc.generated, mc.distinct, mc.wall))
         if not ctx.need_tlc_ok(mc, "Match MC " + name):
             return
-        if ctx.thorough and mc.coverage0:
-            ctx.inconclusive("Match MC %s: actions never taken: %s" % (name, mc.coverage0))
+        # Retire (route del) is disabled by construction where no deleted routes are allowed
+        zero = [a for a in mc.coverage0 if not (a == "Retire" and "deleted" not in name)]
+        if ctx.thorough and zero:
+            ctx.inconclusive("Match MC %s: actions never taken: %s" % (name, zero))
             return
         ctx.cover("mc " + name, states=mc.distinct, transitions=mc.generated)
 
